@@ -555,9 +555,47 @@ def _sandbox(mon, rec):
                 fp0 = ctx_fingerprint(sandbox)
 
 
+def _module_eval(mon, rec):
+    """yaql.eval: the module's cached default context and engine are prepared once; every call leaves them as they were"""
+    import collections as _c
+    yaql.eval('1')
+    fp0 = ctx_fingerprint(yaql._default_context)
+    for k, (text, data, want) in enumerate((('$', 5, 5), ('$.a', {'a': 1}, 1), ('[$, $1]', 7, [7, 7]), ('$', None, None),
+                                            ('[$x, $]', 3, [None, 3]), ('$.select($ + 1)', [1, 2], [2, 3]), ('$', 5, 5))):
+        try:
+            got = ('value', yaql.eval(text, data=data))
+        except Exception as e:
+            got = ('exc', type(e).__name__)
+        rec.count('cases')
+        rec.count('module_eval.calls')
+        rec.case(('module-eval', k), nontrivial=True)
+        d = diff_fingerprint(fp0, ctx_fingerprint(yaql._default_context), skip_dollar_in_first=False)
+        if d:
+            rec.violation('host-context-changed:yaql.eval', 'yaql.eval(%r, data=%r) changed the cached default context: %s' % (text, data, d),
+                          {'kind': 'module-eval'})
+            fp0 = ctx_fingerprint(yaql._default_context)
+        if got != ('value', want):
+            rec.violation('re-evaluation-differs:yaql.eval', 'yaql.eval(%r, data=%r) gave %r, expected %r' % (text, data, got, want),
+                          {'kind': 'module-eval'})
+    # host mappings with a __missing__ hook (defaultdict): get / indexer-with-default / containsKey of an absent key are
+    # reads (plain `$.dd.zz` / `$.dd[zz]` index the mapping itself, whose own __missing__ then stores - not judged)
+    for mode_off, eng in ((False, mon.eng_on), (True, mon.eng_off)):
+        for text in ('$.dd.get(zz)', '$.dd.get(zz, 1)', '$.dd[zz, 1]', '$.dd.containsKey(zz)', '$.dd.keys().len()',
+                     "$.dd.get(a).len()", '$.dd.values().len()', '$.dd.items().len()'):
+            st = eng(text)
+            mon.protect_statement(st)
+
+            def make():
+                dd = _c.defaultdict(list)
+                dd['a'] = [1]
+                return {'dd': dd, 'items': [1]}
+            mon.evaluate(st, make, mode_off, 'defaultdict | ' + text, replay={'kind': 'module-eval'})
+
+
 def _history(spec, mon, rec):
     rng = rng_for(spec['seed'], 'c09', spec['name'])
     _interface(mon, rec)
+    _module_eval(mon, rec)
     _sandbox(mon, rec)
     for h in range(spec['count']):
         texts = rng.sample(POOL, 20)
@@ -599,9 +637,9 @@ def _outcome(f):
 def _contextless(mon, rec, eng, t, st, mode_off):
     """the same statement evaluated without a context: with data, without data, with data again - each
     must equal what a freshly parsed statement gives, and the statement object stays unwritten"""
-    fresh = eng(t)
-    want_data = _outcome(lambda: fresh.evaluate(data=pool_doc()))
-    want_none = _outcome(lambda: eng(t).evaluate())
+    # expected outcomes: a fresh statement in a context built for that one evaluation
+    want_data = _outcome(lambda: eng(t).evaluate(data=pool_doc(), context=yaql.create_context()))
+    want_none = _outcome(lambda: eng(t).evaluate(context=yaql.create_context()))
     mon.attr_writes = []
     mon.armed = True
     try:
@@ -656,7 +694,9 @@ def replay(data, rec):
     mon = Mon(rec)
     try:
         eng = mon.eng_off if data.get('mode_off') else mon.eng_on
-        if data['kind'] == 'sandbox':
+        if data['kind'] == 'module-eval':
+            _module_eval(mon, rec)
+        elif data['kind'] == 'sandbox':
             _sandbox(mon, rec)
         elif data['kind'] == 'interface':
             _interface(mon, rec)
